@@ -39,6 +39,12 @@ pub enum DnOp {
     /// 0 = case of one ASCII letter, 1 = same text in another string kind, 2 = a trailing space,
     /// 3 = the type replaced by a custom type with the same OID. The two must compare unequal.
     NearTwin { from: usize, to: usize, variant: u8 },
+    /// `to.clone_from(&from)` — the other assignment entry point of `Clone`
+    CloneFrom { from: usize, to: usize },
+    /// the slot becomes the subject name *imported* from a certificate made by OpenSSL whose
+    /// subject lists these (OID, text) attributes in this order — types may repeat, which no
+    /// name built by rcgen itself can express (needs x509-parser; skipped otherwise)
+    Import { slot: usize, attrs: Vec<(Vec<u64>, String)> },
     Encode { slot: usize, how: EncodeHow },
 }
 
@@ -154,12 +160,31 @@ impl Engine for DnSim {
                 9..=13 => DnOp::Remove { slot, ty },
                 14 => DnOp::Get { slot, ty },
                 15 => DnOp::Iter { slot },
-                16 => DnOp::CloneTo { from: slot, to: r.usize(slots) },
+                16 => {
+                    if r.bool() {
+                        DnOp::CloneTo { from: slot, to: r.usize(slots) }
+                    } else {
+                        DnOp::CloneFrom { from: slot, to: r.usize(slots) }
+                    }
+                }
                 17 => DnOp::Eq { a: slot, b: r.usize(slots) },
                 18 => match r.below(8) {
                     0 => DnOp::New { slot },
                     1 => DnOp::Iter { slot },
                     2 | 3 => DnOp::NearTwin { from: slot, to: r.usize(slots), variant: r.below(4) as u8 },
+                    4 => {
+                        // a foreign subject: a few standard types (not country: OpenSSL insists on
+                        // two letters there), one of them possibly repeated
+                        let oids: [&[u64]; 5] = [&[2, 5, 4, 10], &[2, 5, 4, 11], &[2, 5, 4, 3], &[2, 5, 4, 7], &[0, 9, 2342, 19200300, 100, 1, 25]];
+                        let mut attrs: Vec<(Vec<u64>, String)> =
+                            (0..r.range(1, 4)).map(|k| (r.pick(&oids).to_vec(), format!("v{k}"))).collect();
+                        if r.chance(2, 3) {
+                            let d = attrs[r.usize(attrs.len())].0.clone();
+                            let at = r.usize(attrs.len() + 1);
+                            attrs.insert(at, (d, "again".into()));
+                        }
+                        DnOp::Import { slot, attrs }
+                    }
                     _ => DnOp::Rotate { slot },
                 },
                 _ => DnOp::Encode {
@@ -333,10 +358,11 @@ impl Engine for DnSim {
                     | DnOp::Rotate { slot }
                     | DnOp::Churn { slot, .. }
                     | DnOp::New { slot } => *slot = 0,
-                    DnOp::NearTwin { from, to, .. } => {
+                    DnOp::NearTwin { from, to, .. } | DnOp::CloneFrom { from, to } => {
                         *from = 0;
                         *to = 0;
                     }
+                    DnOp::Import { slot, .. } => *slot = 0,
                     DnOp::Encode { slot, how } => {
                         *slot = 0;
                         if let EncodeHow::SignedBy { issuer } = how {
@@ -376,6 +402,8 @@ fn op_tag(op: &DnOp) -> String {
         DnOp::Rotate { slot } => format!("rotate[{slot}]"),
         DnOp::Churn { slot, ty, times } => format!("churn[{slot}] {:?} x{times}", ty),
         DnOp::NearTwin { from, to, variant } => format!("near-twin {from}->{to} v{variant}"),
+        DnOp::CloneFrom { from, to } => format!("clone_from {from}->{to}"),
+        DnOp::Import { slot, attrs } => format!("import[{slot}] {:?}", attrs),
         DnOp::Encode { slot, how } => format!("encode[{slot}] {:?}", how),
     }
 }
@@ -531,6 +559,38 @@ fn apply(
             model[*to] = m;
             o.count("near_twins", 1);
         }
+        DnOp::CloneFrom { from, to } => {
+            let src = real[*from].clone();
+            real[*to].clone_from(&src);
+            model[*to] = model[*from].clone();
+        }
+        #[cfg(not(feature = "x509-parser"))]
+        DnOp::Import { .. } => {}
+        #[cfg(feature = "x509-parser")]
+        DnOp::Import { slot, attrs } => {
+            let cert_der = foreign_cert(attrs).map_err(|e| ("dn-import-setup".to_string(), e))?;
+            // what is on the wire, read independently; the reference is "push in wire order"
+            let tbs = tbs_children(&cert_der)?;
+            let wire = der::read_name(tbs[5]).map_err(|e| ("dn-import-setup".to_string(), e.0))?;
+            let mut m: Vec<(DnTypeR, DnValueR)> = Vec::new();
+            for a in &wire {
+                let ty = crate::recipe::STD_TYPES.iter().find(|t| t.oid() == a.oid).cloned().unwrap_or(DnTypeR::Custom(a.oid.clone()));
+                let text = String::from_utf8_lossy(&a.value).to_string();
+                let val = match a.value_tag {
+                    0x0c => DnValueR::Utf8(text),
+                    0x13 => DnValueR::Printable(text),
+                    0x16 => DnValueR::Ia5(text),
+                    0x14 => DnValueR::Teletex(text),
+                    _ => return fail("dn-import-setup", format!("unexpected string tag {:#x} from OpenSSL", a.value_tag)),
+                };
+                model_push(&mut m, &ty, &val);
+            }
+            let params = rcgen::CertificateParams::from_ca_cert_der(&cert_der.clone().into())
+                .map_err(|e| ("dn-import-error".to_string(), format!("{e:?}")))?;
+            real[*slot] = params.distinguished_name;
+            model[*slot] = m;
+            o.count("imports", 1);
+        }
         DnOp::Encode { slot, how } => {
             o.count("encodes", 1);
             encode_check(*slot, how, real, model)?;
@@ -573,6 +633,35 @@ fn check_all(
         }
     }
     Ok(())
+}
+
+/// A self-signed certificate made by OpenSSL with the given subject attributes, in order.
+#[cfg(feature = "x509-parser")]
+fn foreign_cert(attrs: &[(Vec<u64>, String)]) -> Result<Vec<u8>, String> {
+    use openssl::asn1::Asn1Time;
+    use openssl::bn::BigNum;
+    use openssl::hash::MessageDigest;
+    use openssl::x509::{X509Builder, X509NameBuilder};
+    let e = |x: openssl::error::ErrorStack| x.to_string();
+    let key = crate::keys::SimKey::from_spec(&crate::keys::KeySpec { alg: simcore::Alg::P256, material: "07".repeat(32) });
+    let pkey = openssl::pkey::PKey::private_key_from_pkcs8(&key.pkcs8).map_err(e)?;
+    let mut nb = X509NameBuilder::new().map_err(e)?;
+    for (oid, v) in attrs {
+        let text = oid.iter().map(|a| a.to_string()).collect::<Vec<_>>().join(".");
+        nb.append_entry_by_text(&text, v).map_err(e)?;
+    }
+    let name = nb.build();
+    let mut b = X509Builder::new().map_err(e)?;
+    b.set_version(2).map_err(e)?;
+    let serial = BigNum::from_u32(7).map_err(e)?.to_asn1_integer().map_err(e)?;
+    b.set_serial_number(&serial).map_err(e)?;
+    b.set_subject_name(&name).map_err(e)?;
+    b.set_issuer_name(&name).map_err(e)?;
+    b.set_pubkey(&pkey).map_err(e)?;
+    b.set_not_before(Asn1Time::from_unix(1_600_000_000).map_err(e)?.as_ref()).map_err(e)?;
+    b.set_not_after(Asn1Time::from_unix(1_900_000_000).map_err(e)?.as_ref()).map_err(e)?;
+    b.sign(&pkey, MessageDigest::sha256()).map_err(e)?;
+    b.build().to_der().map_err(e)
 }
 
 // --- encode: issue an artefact carrying the name and read the RDNSequence back -----------
